@@ -44,19 +44,97 @@ def solution_fields(ret):
     return out
 
 
+def _is_foreign(n, op, instance):
+    if n.kind == 'input' and n.op != op:
+        return True
+    if n.kind in ('param', 'kwargs') and n.owner is not None and n.owner != instance:
+        return True
+    return False
+
+
+def _key_parts(k):
+    return list(k.args) if k.kind in ('tuple', 'list') else [k]
+
+
+def _table_entries(base, out, seen, depth=0):
+    """Flatten a keyed table value: phi / store chains down to its initialiser.
+    -> entries (key Node, value Node); returns False if the shape is not a pure store chain."""
+    if base.nid in seen or depth > 200:
+        return True
+    seen.add(base.nid)
+    k = base.kind
+    if k == 'phi':
+        return _table_entries(base.args[1], out, seen, depth + 1) and _table_entries(base.args[2], out, seen, depth + 1)
+    if k == 'store':
+        out.append((base.args[1], base.args[2]))
+        return _table_entries(base.args[0], out, seen, depth + 1)
+    if k == 'dict':
+        for kk, vv in zip(base.val, base.args):
+            if isinstance(kk, Node):
+                out.append((kk, vv))
+        return True
+    if k == 'call' and base.val in ('builtins.dict', 'collections.OrderedDict') and not base.args:
+        return True
+    if k in ('undef',):
+        return True
+    return False
+
+
 def foreign_leaves(node, op, instance, cache):
-    """Leaves under `node` that belong to another operation / instance."""
-    key = node.nid
-    if key in cache:
-        return cache[key]
-    bad = []
-    for n in walk(node):
-        if n.kind == 'input' and n.op != op:
-            bad.append(n)
-        elif n.kind in ('param', 'kwargs') and n.owner is not None and n.owner != instance:
-            bad.append(n)
-    cache[key] = bad
-    return bad
+    """Leaves under `node` that belong to another operation / instance.
+
+    A read `table[key]` of a keyed store chain (a memo table: `if key not in T: T[key] = f(..)`;
+    `T[key]`) returns the entry whose key EQUALS the read key, so a leaf of another instance that
+    occurs in a stored value is not a foreign influence when the same leaf is a component of the
+    entry's key and the corresponding component of the read key is the operation's own: on a hit
+    the two are equal.  Every other foreign leaf of the stored value (something the value depends
+    on that the key does not pin) is reported, and so is everything the key itself depends on."""
+    ck = node.nid
+    if ck in cache:
+        return cache[ck]
+    bad = {}
+    seen = set()
+    stack = [(node, frozenset())]
+    while stack:
+        n, excused = stack.pop()
+        if n is None or not isinstance(n, Node) or (n.nid, excused) in seen:
+            continue
+        seen.add((n.nid, excused))
+        if _is_foreign(n, op, instance):
+            if n.nid not in excused:
+                bad[n.nid] = n
+            continue
+        if n.kind == 'sub' and len(n.args) == 2:
+            entries = []
+            if n.args[0].kind in ('phi', 'store') and _table_entries(n.args[0], entries, set()) and entries:
+                rk = _key_parts(n.args[1])
+                stack.append((n.args[1], excused))
+                for sk, sv in entries:
+                    sp = _key_parts(sk)
+                    ex = set(excused)
+                    if len(sp) == len(rk):
+                        for a, c in zip(sp, rk):
+                            own = not any(_is_foreign(x, op, instance) for x in walk(c))
+                            if own and a.kind in ('param', 'input'):
+                                ex.add(a.nid)
+                    stack.append((sv, frozenset(ex)))
+                continue
+        if n.kind == 'phi' and n.args[0].kind == 'cmp' and n.args[0].val in ('in', 'not in'):
+            # `key in table`: whether an entry exists depends on history, the entry's value does not
+            # (checked through the reads of the table); follow the key only
+            stack.append((n.args[0].args[0], excused))
+            stack.append((n.args[1], excused))
+            stack.append((n.args[2], excused))
+            continue
+        stack.extend((a, excused) for a in n.args if isinstance(a, Node))
+        stack.extend((a, excused) for a in n.kw.values() if isinstance(a, Node))
+        if n.kind == 'dict':
+            stack.extend((k, excused) for k in n.val if isinstance(k, Node))
+        if n.ho and n.ho.get('result') is not None:
+            stack.append((n.ho['result'], excused))
+    out = list(bad.values())
+    cache[ck] = out
+    return out
 
 
 def channel(b, op, leaf_set):
@@ -119,7 +197,11 @@ def check_class(model, ci, res, stats, partner=None):
             detail = "%s: returned fields depend on another operation through %s" % (cls_here.name, loc)
             if partner is not None:
                 detail += ' (after %s)' % cj.name if objn is i1 else ' (after %s)' % ci.name
-            res.add(Finding(PROP, 'C06.history', rm.module.relpath, rm.qualname, detail,
+            relpath = rm.module.relpath
+            if key is not None and key[0] not in ('heap', 'classattr') and key[0] in model.modules \
+                    and at is not None:
+                relpath = model.modules[key[0]].relpath      # the read site is in the global's own module
+            res.add(Finding(PROP, 'C06.history', relpath, rm.qualname, detail,
                             "%s: the field '%s' returned by '%s' depends on %s: the value flows through %s, "
                             "which the operation reads before (or without) writing it itself"
                             % (cls_here.name, name, b.ops[op]['kind'], ', '.join(what), loc),
